@@ -1,7 +1,7 @@
 (* C03 -- time-window reads.  Executable model of
-     aw_datastore/datastore.py  Bucket.get (lines 88-114: rounding of the window, then
-                                 storage.get_events) and Bucket.get_eventcount (120-125: NO
-                                 rounding, storage.get_eventcount),
+     aw_datastore/datastore.py  Bucket.get (aware window edges converted to UTC -- since
+                                 49e3288 --, rounding of the window, then storage.get_events)
+                                 and Bucket.get_eventcount (NO rounding, storage.get_eventcount),
    composed with the three storage models of Model/{Mem,Sqlite,Peewee}Store.v.
    Definitions only; everything here is on exact Z microseconds and extracts without
    floats.  The float expressions of Bucket.get (`1000 * int(us / 1000)` ...) are tied to
@@ -39,10 +39,35 @@ Definition round_end_tz (utc off : Z) : Z :=
   let microseconds := (1000 * milliseconds) mod 1000000 in
   replace_us utc off microseconds + second_offset * 1000000.
 
-(* every utcoffset that is a whole number of milliseconds gives the same UTC result as
-   offset 0 (Proofs/WindowRound.v); the compositions below are written for such offsets *)
+(* x.astimezone(timezone.utc): the same instant, read at utcoffset 0 *)
+Definition astimezone_utc (utc off : Z) : Z * Z := (utc, 0).
+
+(* Bucket.get on an aware edge (utc, off), since 49e3288:
+     if x is not None and x.utcoffset() is not None: x = x.astimezone(timezone.utc)
+   and then the rounding above, i.e. on the fields of the UTC reading.  The edge handed to the
+   storage is therefore a function of the INSTANT alone, for every utcoffset (whole minutes,
+   seconds, or not even a whole millisecond: the microsecond field used is the one of the UTC
+   reading, utc mod 10^6, so the result is a whole millisecond of the epoch clock -- the clock
+   on which Event floors its timestamps) and for either value of `fold`.
+   Before that commit the rounding ran on the local reading: round_start_tz utc off /
+   round_end_tz utc off, equal to the present result only for whole-millisecond offsets
+   (Proofs/WindowRound.round_tz_whole_ms), and the `+ timedelta` of the end rounding dropped
+   fold = 1 ([old_round_end_fold] below).  Naive datetimes are outside the model. *)
+Definition bucket_round_start_tz (utc off : Z) : Z :=
+  let d := astimezone_utc utc off in round_start_tz (fst d) (snd d).
+Definition bucket_round_end_tz (utc off : Z) : Z :=
+  let d := astimezone_utc utc off in round_end_tz (fst d) (snd d).
+
+(* the same as functions of the instant; the compositions below are written with these *)
 Definition round_start (t : Z) : Z := round_start_tz t 0.
 Definition round_end (t : Z) : Z := round_end_tz t 0.
+
+(* The end rounding BEFORE 49e3288 on an edge given with fold = 1, in a zone where that wall
+   time has utcoffset off1 in its second reading (fold = 1) and off0 in its first (fold = 0):
+   replace() + timedelta computes on the wall clock and returns fold = 0, i.e. the wall time
+   (round_end_tz utc off1 + off1) re-read at offset off0.  Kept for the sensitivity example of
+   Props/C03.v (the repaired defect C03:window-end-in-fold); not part of the model of the code. *)
+Definition old_round_end_fold (utc off1 off0 : Z) : Z := round_end_tz utc off1 + off1 - off0.
 
 (* `if starttime:` / `if endtime:` -- a datetime is always truthy, so the test is `is not None` *)
 Definition bucket_get_round (ws we : option Z) : option Z * option Z :=
